@@ -28,7 +28,8 @@ CONSTANTS Callers,          \* e.g. {1, 2}
           MaxOwed, MaxUnread,
           DropCloses,       \* FALSE = as the code: getOrOpenStream drops an unusable pooled stream without Close
           GetChecksUnread,  \* FALSE = as the code: getOrOpenStream does not look at unread data of a pooled stream
-          Feat              \* optional actions: "fb" "closeheld" "sess" "rebuild" "peerclose" "reply"
+          PutChecksWbuf,    \* FALSE = as the code: putOrCloseStream/reset do not look at the write buffer
+          Feat              \* optional actions: "fb" "closeheld" "sess" "rebuild" "peerclose" "reply" "write"
 
 Ids == 1..N
 SessIds == 1..MaxSess
@@ -50,10 +51,12 @@ VARIABLES sess,    \* [SessIds -> {"none","live","closing","dead"}]  closing = C
           holder,  \* [Callers -> 0..N]
           ring,    \* pooled streams, oldest first
           leaked,  \* ghost: streams getOrOpenStream dropped without Close while they were in a live session's table
-          late     \* ghost: pooled streams that received an answer while they were in the pool
+          late,    \* ghost: pooled streams that received an answer while they were in the pool
+          wbuf,    \* the stream's write buffer holds a request the caller wrote and did not flush
+          wstale   \* ghost: pooled streams that were given back with an unflushed request in the write buffer
 
-vars == <<sess, cur, bg, nid, owner, st, tab, unread, ufb, fb, rsv, cons, srv, owed, holder, ring, leaked, late>>
-strm == <<st, tab, unread, ufb, fb, rsv, cons, srv, owed>>
+vars == <<sess, cur, bg, nid, owner, st, tab, unread, ufb, fb, rsv, cons, srv, owed, holder, ring, leaked, late, wbuf, wstale>>
+strm == <<st, tab, unread, ufb, fb, rsv, cons, srv, owed, wbuf>>
 
 Range(f) == {f[i] : i \in 1..Len(f)}
 Held == {holder[c] : c \in Callers} \ {0}
@@ -67,7 +70,7 @@ Init == /\ sess = [k \in SessIds |-> IF k = 1 THEN "live" ELSE "none"]
         /\ rsv = [s \in Ids |-> FALSE] /\ cons = [s \in Ids |-> FALSE]
         /\ srv = [s \in Ids |-> "none"] /\ owed = [s \in Ids |-> 0]
         /\ holder = [c \in Callers |-> 0] /\ ring = <<>>
-        /\ leaked = {} /\ late = {}
+        /\ leaked = {} /\ late = {} /\ wbuf = [s \in Ids |-> FALSE] /\ wstale = {}
 
 -----------------------------------------------------------------------------
 (* Stream.Close() on every stream of S (client end): close CAS, clean (leave the table, drop unread data and buffers),
@@ -81,7 +84,7 @@ OwedC(S) == [s \in Ids |-> IF s \in S /\ st[s] = "open" /\ Live(s) THEN 0 ELSE o
 
 CloseAll(S) == /\ st' = StC(S) /\ tab' = TabC(S) /\ unread' = ZeroC(unread, S) /\ ufb' = FalseC(ufb, S)
                /\ fb' = FalseC(fb, S) /\ rsv' = FalseC(rsv, S) /\ cons' = FalseC(cons, S)
-               /\ srv' = SrvC(S) /\ owed' = OwedC(S)
+               /\ srv' = SrvC(S) /\ owed' = OwedC(S) /\ wbuf' = FalseC(wbuf, S)
 
 -----------------------------------------------------------------------------
 (* getOrOpenStream *)
@@ -99,6 +102,7 @@ Get(c) ==
      IN /\ (k = 0 /\ sess[cur] = "live") => nid < N        \* bound: a new id must be left
         /\ leaked' = leaked \cup lk
         /\ late' = late \ (dropped \cup (IF k > 0 THEN {ring[k]} ELSE {}))
+        /\ wstale' = wstale \ (dropped \cup (IF k > 0 THEN {ring[k]} ELSE {}))
         /\ IF k > 0
            THEN /\ holder' = [holder EXCEPT ![c] = ring[k]]
                 /\ ring' = SubSeq(ring, k + 1, Len(ring))
@@ -113,6 +117,7 @@ Get(c) ==
                         /\ tab' = [TabC(D) EXCEPT ![nid + 1] = TRUE]
                         /\ unread' = ZeroC(unread, D) /\ ufb' = FalseC(ufb, D) /\ fb' = FalseC(fb, D)
                         /\ rsv' = FalseC(rsv, D) /\ cons' = FalseC(cons, D) /\ srv' = SrvC(D) /\ owed' = OwedC(D)
+                        /\ wbuf' = FalseC(wbuf, D)
                    ELSE /\ CloseAll(D)                     \* OpenStream fails: the session is closed
                         /\ UNCHANGED <<nid, owner, holder>>
   /\ UNCHANGED <<sess, cur, bg>>
@@ -122,31 +127,49 @@ Put(c) ==
   LET s == holder[c] IN
   /\ s # 0
   /\ holder' = [holder EXCEPT ![c] = 0]
-  /\ IF ~fb[s] /\ st[s] = "open" /\ unread[s] = 0 /\ Len(ring) < Cap
+  /\ IF ~fb[s] /\ st[s] = "open" /\ unread[s] = 0 /\ Len(ring) < Cap /\ (PutChecksWbuf => ~wbuf[s])
      THEN /\ ring' = Append(ring, s)
-          /\ rsv' = [rsv EXCEPT ![s] = rsv[s] \/ cons[s]]   \* ReleaseReadAndReuse: reset the consumed slice, swap buffers
+          \* ReleaseReadAndReuse: if the read buffer holds exactly the consumed slice of the last message, that slice is
+          \* reset and the two buffers are SWAPPED: the old write buffer - with whatever the caller left in it - becomes
+          \* the read buffer
+          /\ rsv' = [rsv EXCEPT ![s] = rsv[s] \/ cons[s]]
           /\ cons' = [cons EXCEPT ![s] = FALSE]
-          /\ UNCHANGED <<st, tab, unread, ufb, fb, srv, owed>>
+          /\ unread' = [unread EXCEPT ![s] = IF cons[s] /\ wbuf[s] THEN 1 ELSE 0]
+          /\ wbuf' = [wbuf EXCEPT ![s] = wbuf[s] /\ ~cons[s]]
+          /\ wstale' = IF wbuf[s] THEN wstale \cup {s} ELSE wstale
+          /\ UNCHANGED <<st, tab, ufb, fb, srv, owed>>
      ELSE /\ CloseAll({s})
-          /\ UNCHANGED ring
+          /\ UNCHANGED <<ring, wstale>>
   /\ UNCHANGED <<sess, cur, bg, nid, owner, leaked, late>>
 
 (* use of the held stream: one request (WriteBytes + Flush) *)
 Send(c, f) ==
-  LET s == holder[c] IN
+  LET s == holder[c]
+      k == IF wbuf[s] THEN 2 ELSE 1      \* what is flushed: the buffered request (if any) and the new one
+  IN
   /\ s # 0 /\ Live(s)
   /\ (f => "fb" \in Feat)
   /\ IF st[s] # "open"
      THEN /\ ~f
           /\ rsv' = [rsv EXCEPT ![s] = FALSE]            \* Flush recycles the send buffer
           /\ UNCHANGED <<fb, srv, owed>>
-     ELSE /\ owed[s] < MaxOwed
-          /\ (f => ~rsv[s] /\ ~fb[s])                    \* (a reserved slice is used even when memory is exhausted)
+     ELSE /\ owed[s] + k <= MaxOwed
+          /\ (f => ~rsv[s] /\ ~fb[s] /\ ~wbuf[s])       \* (a reserved slice is used even when memory is exhausted)
           /\ fb' = [fb EXCEPT ![s] = fb[s] \/ f]
           /\ rsv' = [rsv EXCEPT ![s] = FALSE]
           /\ srv' = [srv EXCEPT ![s] = "open"]
-          /\ owed' = [owed EXCEPT ![s] = owed[s] + 1]
-  /\ UNCHANGED <<sess, cur, bg, nid, owner, st, tab, unread, ufb, cons, holder, ring, leaked, late>>
+          /\ owed' = [owed EXCEPT ![s] = owed[s] + k]
+  /\ wbuf' = [wbuf EXCEPT ![s] = FALSE]
+  /\ UNCHANGED <<sess, cur, bg, nid, owner, st, tab, unread, ufb, cons, holder, ring, leaked, late, wstale>>
+
+(* use of the held stream: the caller buffers a request (WriteBytes) and does not flush it *)
+Write(c) ==
+  LET s == holder[c] IN
+  /\ "write" \in Feat
+  /\ s # 0 /\ Live(s) /\ ~wbuf[s] /\ ~fb[s]
+  /\ st[s] # "closed"     \* (WriteBytes on a stream the caller has closed allocates a buffer nobody releases: C09, not here)
+  /\ wbuf' = [wbuf EXCEPT ![s] = TRUE]
+  /\ UNCHANGED <<sess, cur, bg, nid, owner, st, tab, unread, ufb, fb, rsv, cons, srv, owed, holder, ring, leaked, late, wstale>>
 
 (* use of the held stream: read one message *)
 Read(c) ==
@@ -155,8 +178,8 @@ Read(c) ==
   /\ unread' = [unread EXCEPT ![s] = unread[s] - 1]
   /\ fb' = [fb EXCEPT ![s] = fb[s] \/ ufb[s]]
   /\ ufb' = [ufb EXCEPT ![s] = FALSE]
-  /\ cons' = [cons EXCEPT ![s] = "fb" \in Feat]       \* (only tracked when exhaustion is explored: it decides rsv)
-  /\ UNCHANGED <<sess, cur, bg, nid, owner, st, tab, rsv, srv, owed, holder, ring, leaked, late>>
+  /\ cons' = [cons EXCEPT ![s] = ("fb" \in Feat \/ "write" \in Feat)]       \* (only tracked when exhaustion is explored: it decides rsv)
+  /\ UNCHANGED <<sess, cur, bg, nid, owner, st, tab, rsv, srv, owed, holder, ring, leaked, late, wbuf, wstale>>
 
 (* the caller closes the stream it holds (and gives it back later) *)
 CloseHeld(c) ==
@@ -164,7 +187,7 @@ CloseHeld(c) ==
   /\ "closeheld" \in Feat
   /\ s # 0 /\ st[s] # "closed"
   /\ CloseAll({s})
-  /\ UNCHANGED <<sess, cur, bg, nid, owner, holder, ring, leaked, late>>
+  /\ UNCHANGED <<sess, cur, bg, nid, owner, holder, ring, leaked, late, wstale>>
 
 (* the peer answers one request; the answer reaches the client end wherever the stream is (held or pooled) *)
 PeerReply(s, f) ==
@@ -174,7 +197,7 @@ PeerReply(s, f) ==
   /\ unread' = [unread EXCEPT ![s] = unread[s] + 1]
   /\ ufb' = [ufb EXCEPT ![s] = ufb[s] \/ f]
   /\ late' = IF s \in Range(ring) THEN late \cup {s} ELSE late
-  /\ UNCHANGED <<sess, cur, bg, nid, owner, st, tab, fb, rsv, cons, srv, holder, ring, leaked>>
+  /\ UNCHANGED <<sess, cur, bg, nid, owner, st, tab, fb, rsv, cons, srv, holder, ring, leaked, wbuf, wstale>>
 
 (* the peer closes its end *)
 PeerClose(s) ==
@@ -183,14 +206,14 @@ PeerClose(s) ==
   /\ srv' = [srv EXCEPT ![s] = "closed"]
   /\ owed' = [owed EXCEPT ![s] = 0]
   /\ st' = [st EXCEPT ![s] = IF st[s] = "open" THEN "half" ELSE st[s]]
-  /\ UNCHANGED <<sess, cur, bg, nid, owner, tab, unread, ufb, fb, rsv, cons, holder, ring, leaked, late>>
+  /\ UNCHANGED <<sess, cur, bg, nid, owner, tab, unread, ufb, fb, rsv, cons, holder, ring, leaked, late, wbuf, wstale>>
 
 (* session loss: Session.Close() (local close, or exitErr after the peer died): shutdown flag set, teardown posted *)
 SessClose ==
   /\ "sess" \in Feat
   /\ sess[cur] = "live"
   /\ sess' = [sess EXCEPT ![cur] = "closing"]
-  /\ UNCHANGED <<cur, bg, nid, owner, strm, holder, ring, leaked, late>>
+  /\ UNCHANGED <<cur, bg, nid, owner, strm, holder, ring, leaked, late, wstale>>
 
 (* the posted teardown: every stream still in the table is closed, the table is dropped *)
 Teardown(k) ==
@@ -204,6 +227,8 @@ Teardown(k) ==
   /\ owed' = [s \in Ids |-> IF owner[s] = k THEN 0 ELSE owed[s]]
   /\ leaked' = leaked \ {s \in Ids : owner[s] = k}
   /\ late' = late \ {s \in Ids : owner[s] = k}
+  /\ wstale' = wstale \ {s \in Ids : owner[s] = k}
+  /\ wbuf' = FalseC(wbuf, S)
   /\ UNCHANGED <<cur, bg, nid, owner, holder, ring>>
 
 (* SessionManager.background: the session's CloseChan fired -> pool.close() ... *)
@@ -214,6 +239,7 @@ PoolDrain ==
   /\ ring' = <<>>
   /\ bg' = "drained"
   /\ late' = late \ Range(ring)
+  /\ wstale' = wstale \ Range(ring)
   /\ UNCHANGED <<sess, cur, nid, owner, holder, leaked>>
 
 (* ... and after the rebuild interval a new session is stored into the same pool *)
@@ -222,9 +248,9 @@ Rebuild ==
   /\ cur' = cur + 1
   /\ sess' = [sess EXCEPT ![cur + 1] = "live"]
   /\ bg' = "idle"
-  /\ UNCHANGED <<nid, owner, strm, holder, ring, leaked, late>>
+  /\ UNCHANGED <<nid, owner, strm, holder, ring, leaked, late, wstale>>
 
-Next == \/ \E c \in Callers : Get(c) \/ Put(c) \/ Read(c) \/ CloseHeld(c) \/ Send(c, FALSE) \/ Send(c, TRUE)
+Next == \/ \E c \in Callers : Get(c) \/ Put(c) \/ Read(c) \/ Write(c) \/ CloseHeld(c) \/ Send(c, FALSE) \/ Send(c, TRUE)
         \/ \E s \in Ids : PeerReply(s, FALSE) \/ PeerReply(s, TRUE) \/ PeerClose(s)
         \/ SessClose \/ PoolDrain \/ Rebuild
         \/ \E k \in SessIds : Teardown(k)
@@ -238,6 +264,7 @@ TypeOK == /\ sess \in [SessIds -> {"none", "live", "closing", "dead"}] /\ cur \i
           /\ unread \in [Ids -> 0..MaxUnread] /\ owed \in [Ids -> 0..MaxOwed]
           /\ srv \in [Ids -> {"none", "open", "half", "closed"}]
           /\ holder \in [Callers -> 0..N] /\ Len(ring) <= Cap /\ Range(ring) \subseteq 1..nid
+          /\ wbuf \in [Ids -> BOOLEAN] /\ wstale \subseteq Ids /\ late \subseteq Ids /\ leaked \subseteq Ids
 
 (* no stream is handed to two callers at once (nor to a caller while it sits in the pool) *)
 Exclusive == /\ \A c, d \in Callers : (c # d /\ holder[c] # 0) => holder[c] # holder[d]
@@ -249,11 +276,11 @@ FreshAt(s) == st[s] = "open" /\ Live(s) /\ owner[s] = cur /\ unread[s] = 0
 Handed(c) == holder[c] = 0 /\ holder'[c] # 0
 Fresh == [][\A c \in Callers : Handed(c) =>
               LET s == holder'[c] IN /\ st'[s] = "open" /\ sess'[owner'[s]] = "live" /\ owner'[s] = cur'
-                                     /\ unread'[s] = 0]_vars
-(* ... outside the class "an answer reached the stream while it was pooled" *)
+                                     /\ unread'[s] = 0 /\ ~wbuf'[s]]_vars
+(* ... outside the classes "an answer reached the stream while it was pooled" and "given back with an unflushed request" *)
 FreshModKnown == [][\A c \in Callers : Handed(c) =>
                       LET s == holder'[c] IN /\ st'[s] = "open" /\ sess'[owner'[s]] = "live" /\ owner'[s] = cur'
-                                             /\ (unread'[s] = 0 \/ s \in late)]_vars
+                                             /\ ((unread'[s] = 0 /\ ~wbuf'[s]) \/ s \in late \/ s \in wstale)]_vars
 
 (* a stream given back is kept for reuse or closed *)
 PutOutcome == [][\A c \in Callers : (holder[c] # 0 /\ holder'[c] = 0) =>
